@@ -333,7 +333,8 @@ def write_replay(prop_id, payload):
 
 
 def write_evidence(ctx, level, coverage, assumptions, violations):
-    os.makedirs(os.path.join(VERIF, "evidence"), exist_ok=True)
+    edir = os.environ.get("VERIF_EVIDENCE_DIR") or os.path.join(VERIF, "evidence")
+    os.makedirs(edir, exist_ok=True)
     ev = {
         "property_id": ctx.prop_id,
         "tier": ctx.tier,
@@ -344,7 +345,7 @@ def write_evidence(ctx, level, coverage, assumptions, violations):
         "wall_s": round(time.time() - ctx.t0, 2),
         "violations": violations,
     }
-    path = os.path.join(VERIF, "evidence", ctx.prop_id + ".json")
+    path = os.path.join(edir, ctx.prop_id + ".json")
     with open(path, "w") as f:
         json.dump(ev, f, indent=1, default=str)
     return path
